@@ -424,7 +424,7 @@ bool StateMachine::Impl::run(Event event)
         next_state_id = curr_state_->default_event(event);
     --cb_level_;
 
-    if (next_state_id == NULL_STATE_ID) {
+    if (next_state_id < 0) {
         //! 找出可行的路径
         ++cb_level_;
         auto route_iter = std::find_if(curr_state_->routes.begin(), curr_state_->routes.end(),
